@@ -177,7 +177,11 @@ def gen_schemeless_case(rng):
     case = {"client": "pm", "rules": rules, "urls": urls, "url": entry,
             "method": rng.choice(["GET", "GET", "POST"]), "via": rng.choice([0, 1])}
     if rng.random() < 0.3:
-        case["ret"] = rng.choice([{"total": 10, "remove": ["X-Secret"]}, {"redirect": 5, "remove": ["x-secret", "Cookie"]}, 5])
+        case["ret"] = rng.choice([{"total": 10, "remove": ["X-Secret"]}, {"redirect": 5, "remove": ["x-secret", "Cookie"]}, 5,
+                                  {"total": 10, "remove": ["X-Secret", "Cookie"], "rmtype": "frozenset"},
+                                  {"redirect": 5, "remove": ["X-Secret"], "rmtype": "set"},
+                                  {"total": 10, "remove": ["Authorization", "X-Secret"], "rmtype": "frozenset"},
+                                  {"total": 10, "remove": ["x-secret", "COOKIE"], "rmtype": "tuple"}])
     if rng.random() < 0.2:
         case["mhdr"] = M.gen_headers(rng, 0.8)
     case["hdr"] = M.gen_headers(rng, 0.8) or ["d", [["Authorization", "s"], ["X-Keep", "k"]]]
